@@ -331,8 +331,8 @@ RAW = {
     "deprecated-expr": ("@deprecated true", "first", "reject", True),
     "deprecated-in-response": ("@deprecated", "response-first", "reject", True),
     "sealed-expr": ("@sealed 1", "any", "reject", True),
-    "second-sealed": ("@sealed", "any", "reject", True),
-    "second-extent": ("@extent 8 * 1024", "last", "reject", True),
+    "second-sealed": ("@sealed", "any", "reject", False),
+    "second-extent": ("@extent 8 * 1024", "last", "reject", False),
     "unknown-directive": ("@frobnicate", "any", "reject", True),
     "unknown-directive-expr": ("@frobnicate 1 + 1", "any", "reject", True),
     "assert-noexpr": ("@assert", "any", "reject", True),
